@@ -1,6 +1,9 @@
 package main
 
-import "fmt"
+import (
+	"fmt"
+	"strings"
+)
 
 func vs(state, id string, from, to int, enco, compo, scho []string, enc, comp string, round *int) SIn {
 	return SIn{Kind: "ses", Ses: &VSes{State: state, ID: id, From: from, To: to, EncOpts: enco, CompOpts: compo, SchemeOpts: scho, Enc: enc, Comp: comp, Round: round}}
@@ -53,6 +56,7 @@ func init() {
 			env.Add(c.Coq(), c)
 			return nil
 		}
+		clientRuns, clientRunsMax := 0, env.Pick(60, 1500)
 		depth := env.Pick(3, 4)
 		confs := clientConfs[:env.Pick(3, len(clientConfs))]
 		for _, conf := range confs {
@@ -66,6 +70,16 @@ func init() {
 						}
 						script := append(append([]SIn(nil), prefix...), a)
 						obs := runClientScript(conf, script)
+						// what the high-level Client makes of a handshake that returned a session without an error
+						// (every such script that did not establish, and a sample of those that did)
+						if conf.Kind == "mem" && strings.HasPrefix(obs.Out, "ret:") && (obs.Out != "ret:established" || clientRuns%7 == 0) && clientRuns < clientRunsMax {
+							p := runClientEstablish(conf, script)
+							obs.Client = &p
+							env.Count("client-establish")
+						}
+						if strings.HasPrefix(obs.Out, "ret:") {
+							clientRuns++
+						}
 						c := &CCase{Conf: conf, Script: script, Obs: obs}
 						env.Add(c.Coq(), c)
 						env.Count(fmt.Sprintf("depth=%d", d))
